@@ -46,6 +46,21 @@ type Spec struct {
 	V      string `json:"v,omitempty"`
 }
 
+// CtlSpec: a non-disruptive rule of phase 1-3 (condition like Spec) that sets tx.c18flag and
+// performs ctl actions on the body settings.
+type CtlSpec struct {
+	Kind   string `json:"kind"` // always | contains | status | header
+	Marker string `json:"marker_hex,omitempty"`
+	Code   int    `json:"code,omitempty"`
+	K      string `json:"k,omitempty"`
+	V      string `json:"v,omitempty"`
+	QAcc   string `json:"req_access,omitempty"`  // "" | on | off   ctl:requestBodyAccess (phase 1)
+	QLim   int    `json:"req_limit,omitempty"`   // 0 = untouched   ctl:requestBodyLimit (phase 1)
+	RAcc   string `json:"resp_access,omitempty"` // ctl:responseBodyAccess
+	Force  string `json:"force,omitempty"`       // ctl:forceResponseBodyVariable
+	RLim   int    `json:"resp_limit,omitempty"`  // ctl:responseBodyLimit
+}
+
 type Op struct {
 	Op     string   `json:"op"` // wh set add del w fl rf rd rdall
 	C      int      `json:"c,omitempty"`
@@ -96,6 +111,9 @@ type Case struct {
 	Ph2        Spec       `json:"ph2"`
 	Ph3        Spec       `json:"ph3"`
 	Ph4        Spec       `json:"ph4"`
+	Ctl1       *CtlSpec   `json:"ctl1,omitempty"`
+	Ctl2       *CtlSpec   `json:"ctl2,omitempty"`
+	Ctl3       *CtlSpec   `json:"ctl3,omitempty"`
 	Method     string     `json:"method"`
 	ReqCT      string     `json:"req_ct,omitempty"`
 	ReqHeaders [][]string `json:"req_headers,omitempty"` // [key, value]
@@ -137,8 +155,10 @@ func actionText(s Spec) string {
 }
 
 func ruleText(s Spec, phase int) string {
-	id := 100 + phase
-	act := fmt.Sprintf("id:%d,phase:%d,nolog,%s", id, phase, actionText(s))
+	return ruleTextWith(s, phase, fmt.Sprintf("id:%d,phase:%d,nolog,%s", 100+phase, phase, actionText(s)))
+}
+
+func ruleTextWith(s Spec, phase int, act string) string {
 	switch s.Kind {
 	case "always":
 		return fmt.Sprintf("SecAction \"%s\"\n", act)
@@ -156,8 +176,37 @@ func ruleText(s Spec, phase int) string {
 			v = "RESPONSE_HEADERS"
 		}
 		return fmt.Sprintf("SecRule %s:%s \"@streq %s\" \"%s\"\n", v, s.K, s.V, act)
+	case "txflag":
+		return fmt.Sprintf("SecRule TX:c18flag \"@streq 1\" \"%s\"\n", act)
 	}
 	return ""
+}
+
+func ctlRuleText(k *CtlSpec, phase int) string {
+	if k == nil {
+		return ""
+	}
+	act := fmt.Sprintf("id:%d,phase:%d,pass,nolog,setvar:tx.c18flag=1", 200+phase, phase)
+	onoff := func(name, v string) {
+		switch v {
+		case "on":
+			act += ",ctl:" + name + "=On"
+		case "off":
+			act += ",ctl:" + name + "=Off"
+		}
+	}
+	if phase == 1 {
+		onoff("requestBodyAccess", k.QAcc)
+		if k.QLim > 0 {
+			act += fmt.Sprintf(",ctl:requestBodyLimit=%d", k.QLim)
+		}
+	}
+	onoff("responseBodyAccess", k.RAcc)
+	onoff("forceResponseBodyVariable", k.Force)
+	if k.RLim > 0 {
+		act += fmt.Sprintf(",ctl:responseBodyLimit=%d", k.RLim)
+	}
+	return ruleTextWith(Spec{Kind: k.Kind, Marker: k.Marker, Code: k.Code, K: k.K, V: k.V}, phase, act)
 }
 
 func directives(c *Case) string {
@@ -175,6 +224,10 @@ func directives(c *Case) string {
 	}
 	fmt.Fprintf(&sb, "SecResponseBodyAccess %s\nSecResponseBodyLimit %d\nSecResponseBodyLimitAction %s\n", onoff(c.RespAccess), c.RespLimit, c.RespAction)
 	fmt.Fprintf(&sb, "SecResponseBodyMimeType %s\n", strings.Join(c.Mimes, " "))
+	// the ctl rules come first in their phase
+	sb.WriteString(ctlRuleText(c.Ctl1, 1))
+	sb.WriteString(ctlRuleText(c.Ctl2, 2))
+	sb.WriteString(ctlRuleText(c.Ctl3, 3))
 	sb.WriteString(ruleText(c.Ph1, 1))
 	sb.WriteString(ruleText(c.Ph2, 2))
 	sb.WriteString(ruleText(c.Ph3, 3))
@@ -813,8 +866,37 @@ func (p *printer) spec(s Spec) string {
 		return fmt.Sprintf("(RStatus %s %s %s)", num(s.Code), a, st)
 	case "header":
 		return fmt.Sprintf("(RHeader %s %s %s %s)", hxs(s.K), hxs(s.V), a, st)
+	case "txflag":
+		return fmt.Sprintf("(RTxFlag %s %s)", a, st)
 	}
 	return "RNone"
+}
+
+func (p *printer) cspec(k *CtlSpec, phase int) string {
+	if k == nil {
+		return "CNone"
+	}
+	ob := func(v string) string {
+		switch v {
+		case "on":
+			return "(Some true)"
+		case "off":
+			return "(Some false)"
+		}
+		return "None"
+	}
+	on := func(v int) string {
+		if v > 0 {
+			return fmt.Sprintf("(Some %d)", v)
+		}
+		return "None"
+	}
+	qacc, qlim := "None", "None"
+	if phase == 1 {
+		qacc, qlim = ob(k.QAcc), on(k.QLim)
+	}
+	cond := p.spec(Spec{Kind: k.Kind, Marker: k.Marker, Code: k.Code, K: k.K, V: k.V})
+	return fmt.Sprintf("(CRule %s (mkctl %s %s %s %s %s))", cond, qacc, qlim, ob(k.RAcc), ob(k.Force), on(k.RLim))
 }
 
 func (p *printer) headers(h [][]string) string {
@@ -906,11 +988,12 @@ func term(c *Case, ops []Op) string {
 	for i, x := range o.Infos {
 		infos[i] = num(x)
 	}
-	body := fmt.Sprintf("Case %s %s %s %s %s %s %s %s %s %s %s %s %s %s %s %s %s %s %s %s %s %s %s %s",
+	body := fmt.Sprintf("Case %s %s %s %s %s %s %s %s %s %s %s %s %s %s %s %s %s %s %s %s %s %s %s %s %s %s %s",
 		vh.Bool(c.Mode == "server"), eng,
 		vh.Bool(c.ReqAccess), num(c.ReqLimit), laction(c.ReqAction),
 		vh.Bool(c.RespAccess), num(c.RespLimit), laction(c.RespAction), vh.List(mimes),
 		p.spec(c.Ph1), p.spec(c.Ph2), p.spec(c.Ph3), p.spec(c.Ph4),
+		p.cspec(c.Ctl1, 1), p.cspec(c.Ctl2, 2), p.cspec(c.Ctl3, 3),
 		p.headers(reqh), p.hexs(c.BodyHex), vh.List(opt),
 		vh.Bool(o.Invoked), p.hexs(o.ReadHex), intr, vh.List(evs),
 		num(o.Status), p.headers(o.Headers), p.hexs(o.BodyHex), vh.List(infos))
@@ -1009,6 +1092,11 @@ func Run(cfg vh.Config) (*vh.Result, error) {
 			}
 		}
 		for _, c := range memGridCases(cfg) {
+			if err := runCase(c); err != nil {
+				return nil, err
+			}
+		}
+		for _, c := range ctlGridCases(cfg) {
 			if err := runCase(c); err != nil {
 				return nil, err
 			}
@@ -1115,6 +1203,9 @@ func nontrivial(c *Case) bool {
 	}
 	if c.Engine == "Off" {
 		return false
+	}
+	if c.Ctl1 != nil || c.Ctl2 != nil || c.Ctl3 != nil {
+		return true
 	}
 	if c.ReqAccess && len(c.BodyHex)/2 >= c.ReqLimit {
 		return true
@@ -1224,6 +1315,23 @@ func classify(c *Case, d vh.Counter) {
 		d.Inc("handler_reads_body")
 	} else {
 		d.Inc("handler_ignores_body")
+	}
+	for i, k := range []*CtlSpec{c.Ctl1, c.Ctl2, c.Ctl3} {
+		if k != nil {
+			d.Inc(fmt.Sprintf("ctl_rule_phase%d", i+1))
+			if k.RAcc == "on" || k.Force == "on" {
+				d.Inc("ctl_switches_response_buffering_on")
+			}
+			if k.RAcc == "off" || k.Force == "off" {
+				d.Inc("ctl_switches_response_buffering_off")
+			}
+			if k.RLim > 0 {
+				d.Inc("ctl_response_limit")
+			}
+			if i == 0 && (k.QAcc != "" || k.QLim > 0) {
+				d.Inc("ctl_request_settings")
+			}
+		}
 	}
 	for i, s := range []Spec{c.Ph1, c.Ph2, c.Ph3, c.Ph4} {
 		if s.Kind != "" && s.Kind != "none" {
